@@ -34,6 +34,9 @@ func c03(r *Report) {
 
 	c03Surface(r)
 	c03Touch(r)
+	c03NoFormatSink(r)
+	c03AuditFixes(r)
+	c03NoKeyCache(r)
 
 	// (3)
 	sj := p.Func("crypto", "", "SignJWS")
@@ -299,11 +302,8 @@ func c03WrapperSiblings(r *Report) {
 		}
 		fn := p.SSA.FuncValue(m)
 		n++
-		if m.Name() == "NewPrivateKey" {
-			// listed exception: the name is chosen by the key store itself (UUID), see C03.new-key-name
-			r.OK("C03.wrapper.validates @ "+m.Name(), "SIBLING: wrapper method validates the key name before delegating", p.Pos(m.Pos()), "listed exception: its only production caller passes uuid.New().String() (C03.new-key-name)", false)
-			continue
-		}
+		// (NewPrivateKey used to be a listed exception — "its only production caller passes a UUID" — until an audit showed the
+		// hole in the mechanism itself: names like ../x written through the wrapped fs backend; the wrapper now validates it too)
 		r.Gate(Gate{ID: "C03.wrapper.validates", Fn: fn, Effect: CallEffect(Callee{Desc: "wrappedBackend." + m.Name(), M: func(cc *ssa.CallCommon) bool {
 			return cc.IsInvoke() && cc.Method != nil && cc.Method.Name() == m.Name()
 		}}), Check: ErrCheck(Fn("crypto/storage/spi", "wrapper", "validateKID"))})
@@ -459,4 +459,238 @@ func c03Audit(r *Report, fn *ssa.Function, op Callee) {
 		return
 	}
 	r.OK(key, rule, r.P.Pos(fn.Pos()), fmt.Sprintf("%d %s call(s), each dominated by audit.Log", n, op.Desc), true)
+}
+
+// formatSinkPkgs: packages whose functions render their arguments as text (or JSON) for humans, logs, errors or API responses.
+var formatSinkPkgs = map[string]bool{"fmt": true, "log": true, "log/slog": true, "errors": true, "github.com/sirupsen/logrus": true,
+	"encoding/json": true, "text/template": true, "html/template": true, "github.com/labstack/echo/v4": true}
+
+// pkFormatSinks: sites where a private-key-typed value is converted to an interface that is then handed — directly or
+// as an element of a variadic argument list — to a function of a formatting/logging package.
+func pkFormatSinks(p *Prog) []Site {
+	var out []Site
+	sinkOf := func(ci ssa.CallInstruction) string {
+		cc := ci.Common()
+		var pkg *types.Package
+		var name string
+		if f := cc.StaticCallee(); f != nil && f.Pkg != nil {
+			pkg, name = f.Pkg.Pkg, f.Name()
+		} else if cc.IsInvoke() && cc.Method.Pkg() != nil {
+			pkg, name = cc.Method.Pkg(), cc.Method.Name()
+		}
+		if pkg != nil && formatSinkPkgs[pkg.Path()] {
+			return pkg.Path() + "." + name
+		}
+		return ""
+	}
+	p.EachInstr(func(fn *ssa.Function, in ssa.Instruction) {
+		var conv ssa.Value
+		switch x := in.(type) {
+		case *ssa.MakeInterface:
+			if isPK(x.X.Type()) {
+				conv = x
+			}
+		case *ssa.ChangeInterface:
+			if isPK(x.X.Type()) && !isPK(x.Type()) {
+				conv = x
+			}
+		}
+		if conv == nil {
+			return
+		}
+		for _, ref := range *conv.Referrers() {
+			switch u := ref.(type) {
+			case ssa.CallInstruction:
+				if s := sinkOf(u); s != "" {
+					out = append(out, Site{Fn: fn, Instr: u, Pos: u.Pos(), Note: "private key passed to " + s})
+				}
+			case *ssa.Store:
+				// element of a variadic argument list: store into arr[i], arr sliced, slice passed to the call
+				ia, ok := u.Addr.(*ssa.IndexAddr)
+				if !ok || u.Val != conv {
+					continue
+				}
+				for _, r2 := range *ia.X.Referrers() {
+					sl, ok := r2.(*ssa.Slice)
+					if !ok {
+						continue
+					}
+					for _, r3 := range *sl.Referrers() {
+						if ci, ok := r3.(ssa.CallInstruction); ok {
+							if s := sinkOf(ci); s != "" {
+								out = append(out, Site{Fn: fn, Instr: ci, Pos: ci.Pos(), Note: "private key passed (variadic) to " + s})
+							}
+						}
+					}
+				}
+			}
+		}
+	})
+	return out
+}
+
+// c03NoFormatSink: module-wide zero-count rule + fixture control.
+func c03NoFormatSink(r *Report) {
+	p := r.P
+	rule := "OWN: no private-key value is handed to a formatting, logging, error-text or JSON-rendering function (fmt, log, logrus, errors, encoding/json, echo) outside the storage backends"
+	key := "C03.no-format-sink"
+	fp, err := LoadFixture("c03_format")
+	if err != nil {
+		r.Undecided(key+".control", rule, "", "fixture failed to load: "+err.Error())
+		return
+	}
+	got := map[string]int{}
+	for _, s := range pkFormatSinks(fp) {
+		got[s.Fn.Name()]++
+	}
+	if got["leakVariadic"] != 1 || got["leakDirect"] != 1 || got["fine"] != 0 {
+		r.Undecided(key+".control", rule, "", fmt.Sprintf("positive control failed: %v (want leakVariadic=1 leakDirect=1 fine=0)", got))
+		return
+	}
+	r.OK(key+".control", rule, "", "the matcher reports both leaking fixture functions and not the one that formats only the public key", false)
+	n := 0
+	for _, s := range pkFormatSinks(p) {
+		if c := p.FileClass(p.FuncPos(s.Fn)); c != "prod" && c != "generated" {
+			continue
+		}
+		name := p.FuncName(s.Fn)
+		if strings.HasPrefix(name, "crypto/storage/") || strings.HasPrefix(name, "(crypto/storage/") || strings.HasPrefix(name, "(*crypto/storage/") {
+			// the backends serialise keys for the store they own (JSON body of the external store API, vault payload)
+			n++
+			continue
+		}
+		r.Bad(key+" @ "+name, rule, p.Pos(s.Pos), s.Note+": the key material would appear in an error message, log line or response")
+		return
+	}
+	r.Sites += n + 3
+	r.OK(key, rule, "", fmt.Sprintf("0 sites outside the storage backends (%d inside)", n), true)
+}
+
+// pkRetained: sites where a private-key-typed value is stored into a struct field, a map, a slice element or a
+// Store/LoadOrStore/Swap/Set/Put/Add-style container method (e.g. sync.Map, a cache).
+func pkRetained(p *Prog) []Site {
+	var out []Site
+	p.EachInstr(func(fn *ssa.Function, in ssa.Instruction) {
+		switch x := in.(type) {
+		case *ssa.Store:
+			if !isPK(x.Val.Type()) {
+				return
+			}
+			switch a := x.Addr.(type) {
+			case *ssa.FieldAddr:
+				// a field of a local struct literal that does not escape is not retention; a field of *receiver/param/heap is
+				if al, ok := a.X.(*ssa.Alloc); ok && !al.Heap {
+					return
+				}
+				out = append(out, Site{Fn: fn, Instr: in, Pos: in.Pos(), Note: "private key stored in a struct field"})
+			case *ssa.IndexAddr:
+				if al, ok := a.X.(*ssa.Alloc); ok && !al.Heap {
+					return
+				}
+				out = append(out, Site{Fn: fn, Instr: in, Pos: in.Pos(), Note: "private key stored in a slice/array element"})
+			case *ssa.Global:
+				out = append(out, Site{Fn: fn, Instr: in, Pos: in.Pos(), Note: "private key stored in a package variable"})
+			}
+		case *ssa.MapUpdate:
+			if isPK(x.Value.Type()) {
+				out = append(out, Site{Fn: fn, Instr: in, Pos: in.Pos(), Note: "private key stored in a map"})
+			}
+		case ssa.CallInstruction:
+			cc := x.Common()
+			name := ""
+			if cc.IsInvoke() {
+				name = cc.Method.Name()
+			} else if f := cc.StaticCallee(); f != nil && f.Signature.Recv() != nil {
+				name = f.Name()
+			}
+			switch name {
+			case "Store", "LoadOrStore", "Swap", "CompareAndSwap", "Set", "Put", "Add", "SetWithTTL":
+			default:
+				return
+			}
+			for _, a := range cc.Args {
+				v := a
+				if mi, ok := v.(*ssa.MakeInterface); ok {
+					v = mi.X
+				} else if ci, ok := v.(*ssa.ChangeInterface); ok {
+					v = ci.X
+				}
+				if isPK(v.Type()) {
+					out = append(out, Site{Fn: fn, Instr: x, Pos: x.Pos(), Note: "private key handed to container method " + name})
+				}
+			}
+		}
+	})
+	return out
+}
+
+// c03NoKeyCache: outside the storage backends and the session-bound in-memory signer, a private key obtained for an
+// operation is not retained (a retained handle outlives Link/Delete/rollback of the kid it was fetched for).
+func c03NoKeyCache(r *Report) {
+	p := r.P
+	rule := "OWN: a private-key value is not retained (struct field, map, slice element, package variable, Store/Set/Put-style container) outside the storage backends and the session-bound in-memory signer"
+	key := "C03.no-key-retention"
+	fp, err := LoadFixture("c03_format")
+	if err != nil {
+		r.Undecided(key+".control", rule, "", "fixture failed to load: "+err.Error())
+		return
+	}
+	got := map[string]int{}
+	for _, s := range pkRetained(fp) {
+		got[s.Fn.Name()]++
+	}
+	if got["cacheInMap"] != 1 || got["cacheInField"] != 1 || got["cacheInSyncMap"] != 1 || got["useOnly"] != 0 {
+		r.Undecided(key+".control", rule, "", fmt.Sprintf("positive control failed: %v", got))
+		return
+	}
+	r.OK(key+".control", rule, "", "the matcher reports the three retaining fixture methods and not the one that only uses the key", false)
+	owners := map[string]string{
+		"crypto/storage/**":               "the backends are the key store",
+		"(crypto.MemoryJWTSigner).*":      "session-bound user wallet key, lives in the session only",
+		"(*crypto.MemoryJWTSigner).*":     "session-bound user wallet key",
+		"crypto.NewMemoryCryptoInstance":  "test helper",
+		"crypto/test.*":                   "test helpers",
+		"crypto/cmd.*":                    "migration CLI run by the operator",
+		"http/user.*":                     "creates the session-bound user wallet key pair",
+		"(http/user.SessionMiddleware).*": "creates the session-bound user wallet key pair",
+		"pki.*":                           "TLS certificate of the node (operator-configured file, not a key-store key)",
+		"core.*":                          "TLS certificate loading from operator-configured files",
+		"(core.TLSConfig).*":              "TLS certificate loading from operator-configured files",
+		"network/transport/grpc.*":        "TLS certificate of the node",
+		"test/**":                         "test helpers",
+		"e2e-tests/**":                    "end-to-end test tooling",
+	}
+	r.Own(OwnSpec{ID: key, Op: "retain a private key beyond the operation", Sites: pkRetained(p), Owners: owners, Min: 0, Classes: []string{"prod", "generated"}})
+}
+
+// c03AuditFixes: rules for defects found by the audit round (each fails on the pre-fix tree).
+func c03AuditFixes(r *Report) {
+	p := r.P
+	const az = "crypto/storage/azure"
+	// the Azure signer signs with the version of the key whose public key it reports (an empty version means "latest" in Key
+	// Vault, which is another key pair after a rotation)
+	sign := p.Func(az, "azureSigningKey", "Sign")
+	r.ArgIs("C03.azure.sign-with-the-fetched-key-version", sign, p.FnOrImpl(az, "keyVaultClient", "Sign"), 2, FieldV("azureSigningKey", "keyVersion"), 1)
+	r.FieldStoredIs("C03.azure.key-version-is-the-fetched-one", p.Func(az, "Keyvault", "GetPrivateKey"), "azureSigningKey", "keyVersion", CallV(Fn(az, "", "parseKey"), 2), 1)
+	// a did:nuts verification method publishes a PUBLIC key: the thumbprint covers the public members only, so a complete
+	// private JWK in publicKeyJwk validated and was published to the network
+	vt := p.Func("vdr/didnuts", "verificationMethodValidator", "verifyThumbprint")
+	pubOK := func(typ string) Check {
+		return Check{Desc: "jwk.(" + typ + ") ok", Pass: IsTrue, Values: func(fn *ssa.Function) []ssa.Value {
+			var out []ssa.Value
+			for _, b := range fn.Blocks {
+				for _, in := range b.Instrs {
+					if ta, isTA := in.(*ssa.TypeAssert); isTA && ta.CommaOk && strings.HasSuffix(ta.AssertedType.String(), "jwk."+typ) {
+						for _, ref := range *ta.Referrers() {
+							if ex, isEx := ref.(*ssa.Extract); isEx && ex.Index == 1 {
+								out = append(out, ex)
+							}
+						}
+					}
+				}
+			}
+			return out
+		}}
+	}
+	r.Gate(Gate{ID: "C03.diddoc.published-key-is-public", Fn: vt, Effect: SuccessReturn(), Check: pubOK("ECDSAPublicKey"), Alt: []Check{pubOK("RSAPublicKey"), pubOK("OKPPublicKey")}})
 }
